@@ -213,7 +213,16 @@ func SearchAnalyticFunctions(expr parser.QueryExpression) ([]parser.AnalyticFunc
 		return searchAnalyticFunctionsInRowValueComparison(e.LHS, e.Values)
 	case parser.Function:
 		if strings.ToUpper(expr.(parser.Function).Name) == "JSON_OBJECT" {
-			return nil, nil
+			// the arguments are fields (value [AS alias]): the analytic functions in their values have to be
+			// computed on the whole view, JsonObject itself sees only the current record
+			args := expr.(parser.Function).Args
+			values := make([]parser.QueryExpression, 0, len(args))
+			for _, arg := range args {
+				if f, ok := arg.(parser.Field); ok {
+					values = append(values, f.Object)
+				}
+			}
+			return SearchAnalyticFunctionsInList(values)
 		}
 		return SearchAnalyticFunctionsInList(expr.(parser.Function).Args)
 	case parser.AggregateFunction:
